@@ -303,9 +303,27 @@ fn judge<F: Fl>(c: &Case, levels: &[f64], l: &mut Local) {
         Prod::Proportion | Prod::Wald => {
             let (n, k) = (c.n, c.k);
             let wald = c.prod == Prod::Wald;
+            // the Wilson interval of the counts through one of its front-ends (the b-spec is unused here: its seed picks)
+            let front = if wald { 0 } else { (c.b.seed % 4) as usize };
+            let fname = ["proportion::ci", "proportion::ci_wilson_ratio", "proportion::Stats::ci", "proportion::ci_true"][front];
+            l.count_s(format!("proportion front-end:{}", fname));
+            let data: Vec<bool> = if front == 3 { (0..n).map(|i| (i * k) / n != ((i + 1) * k) / n).collect() } else { vec![] };
             let p = Producer {
-                name: if wald { "proportion::ci_z_normal".into() } else { "proportion::ci".into() },
-                ci: Box::new(move |kk, lv| if wald { call(|| proportion::ci_z_normal(conf(kk, lv), n, k)) } else { call(|| proportion::ci(conf(kk, lv), n, k)) }.map(|i| Obs::of64(&i))),
+                name: if wald { "proportion::ci_z_normal".into() } else { fname.into() },
+                ci: Box::new(move |kk, lv| {
+                    let cf = conf(kk, lv);
+                    if wald {
+                        call(|| proportion::ci_z_normal(cf, n, k))
+                    } else {
+                        match front {
+                            0 => call(|| proportion::ci(cf, n, k)),
+                            1 => call(|| proportion::ci_wilson_ratio(cf, n, k as f64 / n as f64)),
+                            2 => call(|| proportion::Stats::new(n, k).ci(cf)),
+                            _ => call(|| proportion::ci_true(cf, &data)),
+                        }
+                    }
+                    .map(|i| Obs::of64(&i))
+                }),
                 estimate: Some((k as f64 / n as f64, 1e-15)),
                 unit_far_ends: true,
                 ranks: false,
@@ -336,6 +354,25 @@ fn judge<F: Fl>(c: &Case, levels: &[f64], l: &mut Local) {
             judge_producer(&p, levels, &case, l);
         }
     }
+}
+
+fn judge_ratio_n(n: usize, l: &mut Local) {
+    for k in 2..=n - 2 {
+        let est = k as f64 / n as f64;
+        for (kind, lv) in [(Kind::Two, 0.001), (Kind::Two, 0.3), (Kind::Upper, 0.5), (Kind::Lower, 0.500000953674316406250)] {
+            l.eval();
+            l.count("ratio front-end containment judged");
+            match call(|| proportion::ci_wilson_ratio(conf(kind, lv), n, est)).map(|i| Obs::of64(&i)) {
+                Out::Ok(o) => {
+                    if !(o.lo <= est + 1e-15 && est - 1e-15 <= o.hi) {
+                        l.violation(format!("proportion::ci_wilson_ratio|point-estimate-not-contained|{}", kind.name()), "the interval of the ratio front-end does not contain the proportion it was given".to_string(), json!({"what": "ratio", "n": n, "k": k}), json!({"n": n, "k": k, "ratio": est, "kind": kind.name(), "level": lv, "observed": o.json()}));
+                    }
+                }
+                other => l.violation(format!("proportion::ci_wilson_ratio|admissible-ratio-rejected|{}", other.class()), "the ratio front-end rejects an admissible proportion".to_string(), json!({"what": "ratio", "n": n, "k": k}), json!({"n": n, "k": k, "ratio": est, "outcome": other.describe()})),
+            }
+        }
+    }
+    l.nontrivial(mix(&[n as u64, 0x7a710]));
 }
 
 fn make_case(seed: u64, i: u64) -> Case {
@@ -385,13 +422,19 @@ pub fn run(run: &Arc<Run>) {
     let seed = run.cfg.seed;
     let levels = level_grid(seed, 8);
     run.set_rule(
-        "9 producers (Arithmetic, Geometric, Harmonic (inside the positivity proviso), Paired, Unpaired for f32/f64; proportion::ci, ci_z_normal, quantile::ci_indices, quantile::ci) x seeded admissible inputs x the whole level grid (26 levels incl. dyadic ones and levels < 1/2) x 3 kinds: \
+        "9 producers (Arithmetic, Geometric, Harmonic (inside the positivity proviso), Paired, Unpaired for f32/f64; proportion::ci and its front-ends ci_wilson_ratio / Stats::ci / ci_true in rotation, ci_z_normal, quantile::ci_indices, quantile::ci) x seeded admissible inputs x the whole level grid (26 levels incl. dyadic ones and levels < 1/2) x 3 kinds: \
          (a) one-sided(L) bound = two-sided(2L-1) bound (bit-exact at dyadic L, 1e-12 of the half-width otherwise; ranks exactly), (b) CI(L1) included in CI(L2) for all ordered level pairs at least 1e-3 apart in probability, judged by the crate's includes() and by the extended-real model on the raw bounds, \
          (c) two-sided intervals and one-sided ones at L >= 1/2 contain the point estimate (ranks: within one position), (d) result kind / natural far ends match the confidence. distinct = (producer, confidence, interval) fingerprints.",
     );
     if let Some(case) = run.replay_case.as_ref().filter(|c| c["what"] == "order") {
         let mut l = run.local();
         crate::props::purity::order_independence("kind/level coherence", seed, case["i"].as_u64().unwrap(), &mut l);
+        run.absorb(l);
+        return;
+    }
+    if let Some(case) = run.replay_case.as_ref().filter(|c| c["what"] == "ratio") {
+        let mut l = run.local();
+        judge_ratio_n(case["n"].as_u64().unwrap() as usize, &mut l);
         run.absorb(l);
         return;
     }
@@ -409,6 +452,10 @@ pub fn run(run: &Arc<Run>) {
     // the same query must give the same interval whatever was asked before (kinds at one level
     // back to back, states whose dof share an integer part, ...)
     run.par(run.cfg.by(150u64, 3000), |i, l| crate::props::purity::order_independence("kind/level coherence", seed, i, l));
+    // ratio front-end: the interval at any two-sided level (and at one-sided levels >= 1/2) contains the
+    // proportion it was given, for every admissible (n, k) of a range (k/n*n need not give back k exactly)
+    let rmax: u64 = run.cfg.by(400, 2500);
+    run.par(rmax - 3, |i, l| judge_ratio_n(4 + i as usize, l));
     let n = run.cfg.by(6_000u64, 600_000);
     run.par(n, |i, l| {
         let c = make_case(seed, i);
@@ -426,7 +473,7 @@ pub fn run(run: &Arc<Run>) {
             judge::<f64>(&c, &levels, l)
         }
     });
-    let mut req: Vec<String> = vec!["result kind judged".into(), "point estimate containment judged".into(), "2L-1 identity judged".into(), "2L-1 identity judged bit-exactly (dyadic level)".into(), "nesting judged".into(), "input beyond the t->z switch (n > 100 001)".into(), "constant (zero-variance) input".into(), "constant (zero-variance) input:Arithmetic".into(), "constant (zero-variance) input:Paired".into(), "order-independence groups judged".into()];
+    let mut req: Vec<String> = vec!["result kind judged".into(), "point estimate containment judged".into(), "2L-1 identity judged".into(), "2L-1 identity judged bit-exactly (dyadic level)".into(), "nesting judged".into(), "input beyond the t->z switch (n > 100 001)".into(), "constant (zero-variance) input".into(), "constant (zero-variance) input:Arithmetic".into(), "constant (zero-variance) input:Paired".into(), "order-independence groups judged".into(), "ratio front-end containment judged".into(), "proportion front-end:proportion::ci".into(), "proportion front-end:proportion::ci_wilson_ratio".into(), "proportion front-end:proportion::Stats::ci".into(), "proportion front-end:proportion::ci_true".into()];
     for p in PRODS {
         req.push(format!("producer:{:?}", p));
     }
